@@ -14,7 +14,7 @@ ASSUMPTIONS = [
 
 PROPS = {}
 NOT_APPLICABLE = {}
-HOOK_COMMITS = ["cc451d6", "bf01b29"]
+HOOK_COMMITS = ["cc451d6", "bf01b29", "b6b3d93"]
 _UNITS = []
 
 
